@@ -185,8 +185,8 @@ class BaseProduct(productmd.common.MetadataBase):
 
     def _validate_version(self):
         self._assert_type("version", list(six.string_types))
-        if re.match(r'^\d', self.version):
-            self._assert_matches_re("version", [r"^\d+(\.\d+)*$"])
+        if re.match(r'^[0-9]', self.version):
+            self._assert_matches_re("version", [r"^[0-9]+(\.[0-9]+)*\Z"])
 
     def _validate_short(self):
         self._assert_type("short", list(six.string_types))
